@@ -140,16 +140,15 @@ def arm (r : Req) : String :=
     | .methodNotAllowed => "method-not-allowed"
     | .notFound => "not-found"
 
-/-- why the strict reading calls the pin options malformed, field by field; a reason is "lenient" when
-    the code accepts what the strict reading refuses -/
+/-- why the pin options are malformed, field by field -/
 def optReasons (r : Req) : List String :=
   let q := r.query
-  (if garbledOption q then ["escape"] else []) ++
+  (if hasGarbled q then ["escape"] else []) ++
   (if (S.mode q).isNone then ["mode"] else []) ++
-  (if (S.factors q).isNone then (if (M.factors q).isSome then ["shadowed-factors"] else ["factors"]) else []) ++
+  (if (S.factors q).isNone then ["factors"] else []) ++
   (if (natParam (getq q "shard-size") 0).isNone then ["shard-size"] else []) ++
   (if (S.ualloc q).isNone then ["user-allocations"] else []) ++
-  (if (S.expiry q).isNone then (if (M.expiry q).isSome then ["shadowed-expire-in"] else ["expiry"]) else []) ++
+  (if (S.expiry q).isNone then ["expiry"] else []) ++
   (if (optCidParam (getq q "pin-update")).isNone then ["pin-update"] else []) ++
   (if (natsParam (getq q "origins")).isNone then ["origins"] else [])
 
